@@ -200,6 +200,46 @@ def key_der_lines(ctx, rng, quick):
     ctx.correspond(dec, "key-der-decode")
 
 
+def curve_der_lines(ctx, rng, quick):
+    """explicit curve parameters: Curve.to_der("explicit") and Curve.from_der on model and code"""
+    import dertree
+    from c17 import refec_curve, small_curves, sint
+    enc = []
+    names = NAMED if not quick else rng.sample(NAMED, 5) + ["NIST256p"]
+    for name in names:
+        c = refec_curve(ctx, name)
+        a = c["a"] if c["a"] < c["p"] // 2 else c["a"] - c["p"]          # the NIST curves store a = -3
+        for pe in ("uncompressed", "compressed", "hybrid"):
+            h = rng.choice(["-", "1", str(c.get("h", 1)), "0", "4"])
+            enc.append(f"curve.toder {c['p']} {sint(a)} {c['b']} {c['gx']} {c['gy']} {c['n']} {h} {pe}")
+        # the same curve with other representatives of a, b and another base point / order: not the named curve any more
+        enc.append(f"curve.toder {c['p']} {sint(c['a'] + c['p'])} {sint(c['b'] - c['p'])} {c['gx']} {c['gy']} {c['n']} 1 uncompressed")
+        enc.append(f"curve.toder {c['p']} {sint(a)} {c['b']} {c['gx']} {(c['p'] - c['gy'])} {c['n'] - 1} - hybrid")
+        enc.append(f"curve.toder {c['p']} {sint(a)} {(c['b'] + 1) % c['p']} {c['gx']} {c['gy']} {c['n']} 1 uncompressed")
+    for c in small_curves(23, 2) + [dict(p=rng.choice([251, 257, 65537, 2 ** 61 - 1]), a=rng.randrange(200), b=rng.randrange(200),
+                                      gx=rng.randrange(200), gy=rng.randrange(200), n=rng.randrange(1, 300)) for _ in range(4)]:
+        for pe in ("uncompressed", "hybrid"):
+            enc.append(f"curve.toder {c['p']} {sint(c['a'])} {sint(c['b'])} {c['gx']} {c['gy']} {c['n']} {rng.choice(['-', '1', '2'])} {pe}")
+    res = ctx.correspond(enc, "curve-der-encode")
+    dec = []
+    for line, r in zip(list(dict.fromkeys(enc)), res):
+        if not r.startswith("ok "):
+            continue
+        data = bytes.fromhex(r[3:])
+        dec.append(f"curve.fromder {hx(data)}")
+        for k in (range(len(data)) if not quick else rng.sample(range(len(data)), 5)):
+            dec.append(f"curve.fromder {hx(data[:k]) or '-'}")
+        dec.append(f"curve.fromder {hx(data + b'\x00')}")
+        for _ in range(4 if quick else 40):
+            b = bytearray(data)
+            i = rng.randrange(len(b))
+            b[i] = rng.choice([b[i] ^ (1 << rng.randrange(8)), 0, 0xFF, 0x30, 0x02, 0x04, 0x06])
+            dec.append(f"curve.fromder {hx(bytes(b))}")
+        for m in dertree.mutations(data, rng, limit=(10 if quick else 120)):
+            dec.append(f"curve.fromder {hx(m[1]) or '-'}")
+    ctx.correspond(dec, "curve-der-decode")
+
+
 def run(ctx):
     rng = ctx.rng
     quick = ctx.quick
@@ -211,6 +251,7 @@ def run(ctx):
     ctx.correspond(der_lines(rng, 20 if quick else 200), "der-primitives")
     ctx.correspond(codec_lines(ctx, rng, 2 if quick else 12), "point-codecs")
     key_der_lines(ctx, rng, quick)
+    curve_der_lines(ctx, rng, quick)
     props = []
     import refec
     from c17 import refec_curve
